@@ -709,6 +709,11 @@ class Engine:
             return {'<': lambda: x < y, '<=': lambda: x <= y, '>': lambda: x > y, '>=': lambda: x >= y,
                     '+': lambda: x + y, '-': lambda: x - y, '*': lambda: x * y, '/': lambda: x / y,
                     '%': lambda: x % y}[op]()
+        if op in ('<<', '>>'):
+            x, y = z3.simplify(as_int(a)), z3.simplify(as_int(b))
+            if z3.is_int_value(x) and z3.is_int_value(y) and 0 <= y.as_long() < 63:
+                return z3.IntVal(x.as_long() << y.as_long() if op == '<<' else x.as_long() >> y.as_long())
+            raise Unsupported(f'shift of a symbolic value')
         if op in ('&', '|'):
             x, y = as_bool(a), as_bool(b)
             return z3.And(x, y) if op == '&' else z3.Or(x, y)
@@ -1286,6 +1291,8 @@ class Engine:
         loopvar = kids[-2]
         range_decl = next(c for c in kids if c.k == 'DeclStmt' and c.c and c.c[0].name.startswith('__range'))
         rng_init = [c for c in range_decl.c[0].c][0]
+        if rng_init.k in ('CXXStdInitializerListExpr', 'InitListExpr'):
+            return self.run_initlist_loop(n, st, rng_init, loopvar, body)
         outs = []
         for s, rng in self.ev(rng_init, st):
             s.push()
@@ -1294,6 +1301,28 @@ class Engine:
                 s2.pop()
                 outs.append((s2, o))
         return outs
+
+    def run_initlist_loop(self, n, st, rng_init, loopvar, body):
+        """`for (T x : {e0, .., ek})`: the list is a literal, so the loop is unrolled exactly (no invariant, no bound)."""
+        lst = rng_init if rng_init.k == 'InitListExpr' else next(c for c in rng_init.c if c.k == 'InitListExpr')
+        vd = loopvar.c[0]
+        cur, done = [st], []
+        for elem_n in lst.c:
+            nxt = []
+            for s in cur:
+                for s1, v in self.ev(elem_n, s):
+                    s1.push()
+                    s1.set(vd.name, v, declare=True)
+                    for s2, o in self.ex(body, s1):
+                        s2.pop()
+                        if o is NORMAL or o == ('continue',):
+                            nxt.append(s2)
+                        elif o == ('break',):
+                            done.append((s2, NORMAL))
+                        else:
+                            done.append((s2, o))
+            cur = nxt
+        return [(s, NORMAL) for s in cur] + done
 
     def run_range_loop(self, n, st, rng, loopvar, body):
         vd = loopvar.c[0]
